@@ -10,6 +10,7 @@ import (
 	"strings"
 
 	"github.com/gobwas/ws"
+	"github.com/gobwas/ws/wsflate"
 	"github.com/gobwas/ws/wsutil"
 
 	"verif/eng"
@@ -613,6 +614,12 @@ func c17WriteSide(r *eng.Run) string {
 		}
 	case 1:
 		w := c17ClientWriter(r, dst, 4096)
+		if r.T.Bool(sim.LCfg) {
+			// ... with a send extension attached (the compression state of a
+			// connection that negotiated it; this message is not compressed).
+			w.SetExtensions(&wsflate.MessageState{})
+			r.Probe("client_write_through_with_extension_attached")
+		}
 		_, err = w.WriteThrough(data)
 	case 2:
 		// One CipherWriter, the payload in up to three writes at any offsets
@@ -650,6 +657,10 @@ func c17WriteSide(r *eng.Run) string {
 		}
 	default:
 		w := c17ClientWriter(r, dst, 1+r.T.Int(sim.LSize, 200))
+		if r.T.Bool(sim.LCfg) {
+			w.SetExtensions(&wsflate.MessageState{})
+			r.Probe("client_write_through_with_extension_attached")
+		}
 		_, err = w.Write(data)
 		if err == nil {
 			err = w.Flush()
